@@ -223,6 +223,21 @@ pub fn check_seq(c: &SeqCase, st: &mut Stats) -> Check {
         check(&buf, "after editing only the middle of a large buffer", st)?;
         st.class("large buffer edited in place (same address and length, edges unchanged)");
     }
+    if buf.len() > (1 << 20) {
+        // a different file that lands on the address of the previous one: free the buffer and allocate one of the
+        // same length (large allocations are mapped and unmapped directly, so the address is normally reused)
+        let (old_addr, n) = (buf.as_ptr() as usize, buf.len());
+        let keep: Vec<u8> = buf[..64].to_vec();
+        drop(buf);
+        let mut fresh: Vec<u8> = vec![b'#'; n];
+        fresh[..64].copy_from_slice(&keep);
+        fresh[n / 3] = b'\n';
+        if fresh.as_ptr() as usize == old_addr {
+            st.class("a new buffer of the same length at the address of the freed one");
+        }
+        check(&fresh, "a new buffer of the same length (first 64 bytes equal) allocated after the previous one was freed", st)?;
+        buf = fresh;
+    }
     // sections and clones of a mapping whose id was already computed
     let parent = proguard::ProguardMapping::new(&buf);
     let pid = guarded(|| parent.uuid().to_string()).map_err(|p| Fail::new("uuid-panic", p))?;
@@ -273,6 +288,15 @@ pub fn run(ctx: &Ctx) -> Report {
         Ok(())
     });
     rep.run_stage("sequences", seq_case, ctx.cases(3_000, 60_000), check_seq);
+    // the same API sequences on buffers well beyond every size the other stages reach (16 MiB+, 32 MiB+, ...)
+    let big: Vec<SeqCase> = ctx
+        .tier
+        .pick(&[(17usize << 20) + 3, 33 << 20][..], &[(17usize << 20) + 3, 33 << 20, (64 << 20) + 1, 130 << 20][..])
+        .iter()
+        .enumerate()
+        .map(|(i, len)| SeqCase { len: *len, seed: ctx.seed ^ (i as u64 + 1), edits: vec![(0, 1), (65535, 7), (32768, 3)], sections: vec![(0, 32768), (1, 65535)], bom: i % 2 == 1, swaps: vec![(100, 60000, 0), (5, 40000, 2)] })
+        .collect();
+    rep.run_enum("big-sequences", &big, check_seq);
     let cfg = GenCfg { plain_sourcefile_headers: true, ..GenCfg::default() };
     rep.run_stage("mappings", move || super::common::map_case(&cfg), ctx.cases(20_000, 900_000), |c: &super::common::MapCase, st: &mut Stats| {
         let lf = c.file.render(&Render { eol: Eol::Lf, final_eol: true });
@@ -380,7 +404,7 @@ pub fn replay(stage: &str, case: &Value) -> Check {
             let b = unhex(case["hex"].as_str().unwrap_or(""));
             check_bytes(&b, &mut st).map(|_| ())
         }
-        "sequences" => check_seq(&serde_json::from_value(case.clone()).map_err(|e| Fail::new("harness-replay", e.to_string()))?, &mut st),
+        "sequences" | "big-sequences" => check_seq(&serde_json::from_value(case.clone()).map_err(|e| Fail::new("harness-replay", e.to_string()))?, &mut st),
         "mappings" => {
             let c: super::common::MapCase = serde_json::from_value(case.clone()).map_err(|e| Fail::new("harness-replay", e.to_string()))?;
             let lf = c.file.render(&Render { eol: Eol::Lf, final_eol: true });
